@@ -11,6 +11,7 @@ statement covers debug and release builds; the capacity `s.r.cap` is an arbitrar
 (so `N = 0` and the full/empty boundaries are included).
 -/
 import Micromap.Proofs.RefineStep
+import Micromap.Proofs.RefineTie
 
 namespace Micromap.Props.C01
 open Micromap Micromap.Refine SetAlg
@@ -130,6 +131,14 @@ theorem sim_observables (hE : E.Lawful) {r : Raw K V} {d : List (K × V)} (hs : 
   refine ⟨by rw [hr.1, hperm.length_eq], hr.safe.1, fun pr => ?_⟩
   rw [habs]
   exact Dict.lookupP_perm hE.equivB (hE.probeOK pr) hn hperm
+
+/-- **The theorems are about what is executed.**  `mrun op` is `stepMapOp` (the function `step`
+    runs and the driver executes against the real crate) on the corresponding `MapOp`: same outcome,
+    same final state, same return value once slot positions are erased. -/
+theorem step_executes_mrun (R : Render K V) (other : Nat → Raw K V) (op : DOp K V Q) (mop : MapOp K V Q)
+    (h : toMapOp op = some mop) (s : St K V Q) :
+    Res.mapOut (viewRV op) (stepMapOp E R other mop s) = Res.mapOut (viewD op) (mrun E op s) :=
+  stepMapOp_eq_mrun E R other op mop h s
 
 /-! ### non-vacuity (tests, not proofs): a lawful key type whose equal keys are distinguishable -/
 
